@@ -13,13 +13,24 @@ use serde::{Deserialize, Serialize};
 use std::cmp::Ordering;
 use std::hash::{Hash, Hasher};
 
-pub const RULE: &str = "case = a program: a pool of 6 operands (random, zero-with-scale, one-with-zeros, power of ten, value-equal twin of another entry) and 1..40 operations on an accumulator, each with a generated overload; after EVERY step the accumulator must equal the exact model value, compare Equal (==, cmp, hash stream) with a freshly built canonical twin, and order correctly against the previous step's value; non-trivial = at least 5 steps, at least 3 distinct operation kinds and at least one step involving a special representation; distinct = structural hash of the whole program";
+pub const RULE: &str = "case = a program: a pool of 6 operands (random, zero-with-scale, one-with-zeros, power of ten, value-equal twin of another entry) and 1..40 operations on an accumulator, each with a generated overload (all 41 decimal-decimal spellings; the accumulator on either side, combined with pool entries, with itself or with one of its last four intermediate values; cube, clone_into); after EVERY step the accumulator must equal the exact model value, compare Equal (==, cmp, hash stream) with a freshly built canonical twin, and order correctly against the previous step's value; non-trivial = at least 5 steps, at least 3 distinct operation kinds and at least one step involving a special representation; distinct = structural hash of the whole program";
 pub const EXPLANATION: &str = "Model-based testing of operation histories: the interpreter runs each program on a real BigDecimal accumulator and on the (BigInt, i128 scale) model; the invariant is checked after each step, so every prefix is a tested history. Programs are proptest values (Vec<Op> + pool) and shrink as a whole. Both build flavours (==, cmp and Hash are exercised in flight).";
 
 #[derive(Clone, Debug, Hash, Serialize, Deserialize)]
 pub enum Op {
-    /// op: 0 add, 1 sub, 2 mul; overload index into the decimal-decimal table; operand index into the pool
-    Bin { op: u8, overload: u16, operand: u16 },
+    /// op: class of the decimal-decimal table (0 add, 1 sub, 2 mul, 3 reversed sub, 4..6 the sign-flipped / absolute
+    /// reference forms); overload index into that class; operand index into the pool.
+    /// rhs: 0 = pool entry, 1 = the accumulator itself, 2 = an earlier intermediate value (the operand index
+    /// then selects among the last four); swap: the accumulator is the RIGHT operand
+    Bin {
+        op: u8,
+        overload: u16,
+        operand: u16,
+        #[serde(default)]
+        rhs: u8,
+        #[serde(default)]
+        swap: bool,
+    },
     /// compound/operator with a BigInt
     Int { op: u8, overload: u16, n: String },
     /// operator with a primitive integer of type `ty`
@@ -29,6 +40,9 @@ pub enum Op {
     Double,
     Half,
     Square,
+    Cube,
+    /// accumulator's reference cloned INTO an existing decimal (pool entry), which becomes the accumulator
+    CloneInto { dest: u16 },
     /// with_scale(scale + by)
     Extend { by: u16, form: u8 },
     Normalize,
@@ -85,9 +99,15 @@ pub fn check_program(c: &Program) -> Verdict {
     let dd = dd_table();
     let di = di_table();
     let mut skipped = 0;
+    // the last four intermediate values (as the library represents them) with their exact values
+    let mut hist: Vec<(BigDecimal, Dec)> = Vec::new();
     for (step, op) in c.ops.iter().enumerate() {
         let prev_model = model.clone();
         let prev_acc = acc.clone();
+        hist.push((prev_acc.clone(), prev_model.clone()));
+        if hist.len() > 4 {
+            hist.remove(0);
+        }
         // size guards look at the accumulator as the library holds it (the model may be in a shorter,
         // value-equal representation)
         let acc_repr = dec_of(&acc);
@@ -95,24 +115,49 @@ pub fn check_program(c: &Program) -> Verdict {
         let acc_scale = if acc_repr.scale.abs() > model.scale.abs() { acc_repr.scale } else { model.scale };
         let name: String;
         match op {
-            Op::Bin { op, overload, operand } => {
-                let op = op % 3;
-                let j = pick_idx(*operand, pool.len());
-                if op == 2 && (acc_digits + c.pool[j].ndigits() > MAX_DIGITS || (acc_scale + c.pool[j].scale as i128).abs() > MAX_SCALE) {
+            Op::Bin { op, overload, operand, rhs, swap } => {
+                let op = op % 7;
+                // the other operand: a pool entry, the accumulator itself, or an earlier intermediate
+                let (other, mother, other_special): (BigDecimal, Dec, bool) = match rhs % 3 {
+                    1 => (acc.clone(), model.clone(), true),
+                    2 if !hist.is_empty() => {
+                        let (h, mh) = &hist[pick_idx(*operand, hist.len())];
+                        (h.clone(), mh.clone(), true)
+                    }
+                    _ => {
+                        let j = pick_idx(*operand, pool.len());
+                        (pool[j].clone(), mpool[j].clone(), is_special(&c.pool[j]))
+                    }
+                };
+                let other_repr = dec_of(&other);
+                let other_digits = bdoracle::dec::ndigits(&other_repr.int) as usize;
+                if op == 2 && (acc_digits + other_digits > MAX_DIGITS || (acc_scale + other_repr.scale).abs() > MAX_SCALE) {
                     skipped += 1;
                     continue;
                 }
                 let cands: Vec<_> = dd.iter().filter(|e| e.1 == op).collect();
                 let e = cands[pick_idx(*overload, cands.len())];
-                name = e.0.to_string();
-                acc = (e.2)(&acc, &pool[j]);
-                model = match op {
-                    0 => model.add(&mpool[j]),
-                    1 => model.sub(&mpool[j]),
-                    _ => model.mul(&mpool[j]),
+                name = format!("{}{}{}", e.0, if *swap { " [acc on the right]" } else { "" }, ["", " [with itself]", " [with an earlier intermediate]"][(rhs % 3) as usize]);
+                let (l, r, ml, mr) = if *swap { (&other, &acc, &mother, &model) } else { (&acc, &other, &model, &mother) };
+                let res = (e.2)(l, r);
+                let mres = match op {
+                    0 | 4 => ml.add(mr),
+                    1 => ml.sub(mr),
+                    2 => ml.mul(mr),
+                    3 => mr.sub(ml),
+                    5 => ml.neg().sub(mr),
+                    _ => ml.abs().add(&mr.abs()),
                 };
-                special |= is_special(&c.pool[j]);
-                kinds.insert(["add", "sub", "mul"][op as usize]);
+                acc = res;
+                model = mres;
+                special |= other_special;
+                if *swap {
+                    kinds.insert("acc-on-the-right");
+                }
+                if rhs % 3 != 0 {
+                    kinds.insert("acc-with-itself-or-intermediate");
+                }
+                kinds.insert(["add", "sub", "mul", "sub", "add", "neg-sub", "abs-add"][op as usize]);
             }
             Op::Int { op, overload, n } => {
                 let op = op % 4;
@@ -203,6 +248,23 @@ pub fn check_program(c: &Program) -> Verdict {
                 model = model.mul(&model);
                 kinds.insert("square");
             }
+            Op::Cube => {
+                if acc_digits * 3 > MAX_DIGITS || (acc_scale * 3).abs() > MAX_SCALE {
+                    skipped += 1;
+                    continue;
+                }
+                acc = acc.cube();
+                name = "cube".into();
+                model = model.mul(&model).mul(&model);
+                kinds.insert("cube");
+            }
+            Op::CloneInto { dest } => {
+                let mut d = pool[pick_idx(*dest, pool.len())].clone();
+                acc.to_ref().clone_into(&mut d);
+                acc = d;
+                name = "clone_into".into();
+                kinds.insert("clone");
+            }
             Op::Extend { by, form } => {
                 let by = (*by % 700) as i64;
                 let (_, sc) = acc.as_bigint_and_exponent();
@@ -285,6 +347,14 @@ pub fn check_program(c: &Program) -> Verdict {
         5..=15 => "steps=5..15",
         _ => "steps>15",
     });
+    if skipped > 0 {
+        v.labels.push("has-steps-skipped-by-size-guard");
+    }
+    for k in ["acc-on-the-right", "acc-with-itself-or-intermediate", "cube", "neg-sub", "abs-add"] {
+        if kinds.contains(k) {
+            v.labels.push(k);
+        }
+    }
     v
 }
 
@@ -299,7 +369,8 @@ fn op_strategy() -> BoxedStrategy<Op> {
         Op::Prim { op, overload, ty, val: val.max(lo).min(hi).to_string() }
     });
     prop_oneof![
-        8 => (0..3u8, any::<u16>(), any::<u16>()).prop_map(|(op, overload, operand)| Op::Bin { op, overload, operand }),
+        8 => (prop_oneof![6 => 0..3u8, 2 => 3..7u8], any::<u16>(), any::<u16>(), prop_oneof![5 => Just(0u8), 1 => Just(1u8), 2 => Just(2u8)], prop_oneof![3 => Just(false), 1 => Just(true)])
+            .prop_map(|(op, overload, operand, rhs, swap)| Op::Bin { op, overload, operand, rhs, swap }),
         2 => (0..4u8, any::<u16>(), gen::sdigits(40)).prop_map(|(op, overload, n)| Op::Int { op, overload, n }),
         2 => prim,
         1 => (0..3u8).prop_map(|form| Op::Neg { form }),
@@ -307,6 +378,7 @@ fn op_strategy() -> BoxedStrategy<Op> {
         1 => Just(Op::Double),
         1 => Just(Op::Half),
         1 => Just(Op::Square),
+        1 => prop_oneof![Just(Op::Cube), any::<u16>().prop_map(|dest| Op::CloneInto { dest })],
         1 => (any::<u16>(), 0..3u8).prop_map(|(by, form)| Op::Extend { by, form }),
         1 => Just(Op::Normalize),
         1 => Just(Op::CloneRef),
